@@ -39,7 +39,7 @@ Fixpoint grun (cfg : config) (st : state) (B : Z -> Z -> Z) (ops : list op) : st
   | [] => (st, B)
   | o :: r =>
     match step cfg st o with
-    | Ok (st', _) => grun cfg st' (budget_next st B o st') r
+    | Ok (st', _) => grun cfg st' (budget_next cfg st B o st') r
     | Err _ => grun cfg st B r
     end
   end.
